@@ -4,7 +4,8 @@ import os, re, subprocess, json, concurrent.futures
 from common import *
 
 
-def nasm_to_gas(text):
+def nasm_to_gas(text, trace=False):
+    """trace: call the register-dumping routine lib/hwtrace/mark.S at every statement marker"""
     out = [".intel_syntax noprefix"]
     for line in text.split("\n"):
         code, sep, com = line.partition(";")
@@ -12,6 +13,8 @@ def nasm_to_gas(text):
         tail = ("  # " + com.strip()) if sep else ""
         if not c:
             out.append(tail.strip())
+            if trace and com.strip().startswith("@mark"):
+                out.append("    call __sccv_mark")
             continue
         if c.startswith("section .note.GNU-stack"):
             out.append('.section .note.GNU-stack,"",@progbits')
@@ -53,21 +56,21 @@ class Native:
                 raise ToolError("gcc cannot compile the C driver: " + r.stdout)
             self.drvobj[n] = o
 
-    def assemble(self, name, asm_text):
+    def assemble(self, name, asm_text, trace=False):
         """-> (object path or None, assembler diagnostics)"""
         s = os.path.join(self.dir, name + ".s")
         o = os.path.join(self.dir, name + ".o")
-        open(s, "w").write(nasm_to_gas(asm_text))
+        open(s, "w").write(nasm_to_gas(asm_text, trace))
         r = subprocess.run(["as", "--64", "-o", o, s], stdout=subprocess.PIPE, stderr=subprocess.STDOUT, text=True)
         if r.returncode != 0:
             return None, r.stdout
         return o, r.stdout
 
-    def link(self, name, obj, nargs):
+    def link(self, name, obj, nargs, extra=()):
         b = os.path.join(self.dir, name + ".bin")
         if nargs not in self.drvobj:
             return None, "no C driver for %d arguments" % nargs
-        r = subprocess.run(["gcc", "-no-pie", "-o", b, self.drvobj[nargs], self.ioobj, obj], stdout=subprocess.PIPE, stderr=subprocess.STDOUT, text=True)
+        r = subprocess.run(["gcc", "-no-pie", "-o", b, self.drvobj[nargs], self.ioobj, obj] + list(extra), stdout=subprocess.PIPE, stderr=subprocess.STDOUT, text=True)
         if r.returncode != 0:
             # retry as PIE (the repository's own command line does not pass -no-pie)
             r = subprocess.run(["gcc", "-o", b, self.drvobj[nargs], self.ioobj, obj], stdout=subprocess.PIPE, stderr=subprocess.STDOUT, text=True)
@@ -75,9 +78,10 @@ class Native:
                 return None, r.stdout
         return b, ""
 
-    def run(self, binary, argv, timeout=10):
+    def run(self, binary, argv, timeout=10, env=None):
         try:
-            r = subprocess.run([binary] + [str(a) for a in argv], stdout=subprocess.PIPE, stderr=subprocess.PIPE, timeout=timeout)
+            r = subprocess.run([binary] + [str(a) for a in argv], stdout=subprocess.PIPE, stderr=subprocess.PIPE, timeout=timeout,
+                               env=dict(os.environ, **env) if env else None)
         except subprocess.TimeoutExpired:
             return {"ran": False, "why": "timeout", "stdout": "", "status": -1}
         try:
